@@ -469,8 +469,55 @@ partial def drainReader (fix : Bool) (it : RIter) (n : Nat) (last : Option Bytes
   | some (none, _) => (n, last, "eof")
   | some (some e, it') => drainReader fix it' (n + 1) (some e.key)
 
+/-- the outcomes of successive `next` calls up to and including the first failure (`none` = the reader aborted) -/
+def drainEntries (fix : Bool) (it : RIter) : Nat → List (Option Entry) → Option (List (Option Entry))
+  | 0, acc => some (acc.reverse ++ [none])
+  | fuel + 1, acc =>
+    match rNext fix it with
+    | none => none
+    | some (none, _) => some (acc.reverse ++ [none])
+    | some (some e, it') => drainEntries fix it' fuel (some e :: acc)
+
+def fnv1a64 (bs : List UInt8) : UInt64 :=
+  bs.foldl (fun h b => (h ^^^ b.toUInt64) * 0x100000001b3) 0xcbf29ce484222325
+
+def dumpReply (lines : List String) : String :=
+  let bytes := (String.join (lines.map (· ++ "\n"))).toUTF8.toList
+  "dump exit=0 n=" ++ toString lines.length ++ " out=" ++
+    (if bytes.length ≤ 3000 then hex bytes else "#" ++ toString (fnv1a64 bytes).toNat)
+
 def stepVerify (s : St) (line : String) : Option (St × String) :=
   match line.trimAscii.toString.splitOn " " with
+  | "tool.dump" :: bid :: args =>
+    match bid.toNat?.bind (s.blobs[·]?) with
+    | some file =>
+      let o : Tools.DumpOpts := { silent := kvNat args "s" 0 == 1, hex := kvNat args "x" 0 == 1,
+                                  kpre := (kv args "k").bind unhex, vpre := (kv args "v").bind unhex,
+                                  kmin := kvNat args "K" 0, vmin := kvNat args "V" 0 }
+      match readerOpen s.fixF9 4294967295 (decompOf s.ctab) false file with
+      | .ok r =>
+        match readerIterInit s.fixF1 r none .iter with
+        | some none => some (s, dumpReply [])
+        | some (some it) =>
+          match drainEntries s.fixF1 it file.length [] with
+          | some outs => some (s, dumpReply (Tools.dumpOfRun o outs))
+          | none => some (s, "dump abort")
+        | none => some (s, "dump abort")
+      | .null => some (s, "dump exit=1 n=0 out=-")
+      | _ => some (s, "dump abort")
+    | none => none
+  | ["tool.info", bid] =>
+    match bid.toNat?.bind (s.blobs[·]?) with
+    | some file =>
+      match readerOpen s.fixF9 4294967295 (decompOf s.ctab) false file with
+      | .ok r =>
+        let names := ["size", "ibo", "ib", "db", "bs", "dbc", "ec", "kb", "vb"]
+        let vals := (Tools.infoLines file.length r.m).map (·.2)
+        some (s, "info exit=0 " ++ " ".intercalate ((names.zip vals).map fun (n, v) => n ++ "=" ++ toString v) ++
+                 " algo=" ++ Tools.infoAlgo r.m)
+      | .null => some (s, "info exit=1 size=? ibo=? ib=? db=? bs=? dbc=? ec=? kb=? vb=? algo=?")
+      | _ => some (s, "info abort")
+    | none => none
   | ["tool.verify", bid] =>
     match bid.toNat?.bind (s.blobs[·]?) with
     | some file =>
